@@ -2,11 +2,13 @@
 from fractions import Fraction
 import math
 import common as C
+import zigref
 from props import nutslib as N
 
 ID = "C03"
 LEVEL = "proof"
-COQ_HEADER = "From MiniMcmc Require Import Model.NUTSEval Model.FindEps."
+COQ_HEADER = "From MiniMcmc Require Import Model.NUTSEval Model.FindEps Model.Ziggurat."
+ZMARK = -1000000021
 LMARK = -1000000011
 AMARK = -1000000017
 GMARK = -1000000013
@@ -98,7 +100,29 @@ def run_impl(cases):
                                     for i in idx])
         for i, r in zip(idx, rep):
             outs[i]["replay"] = r["values"]
+            # the same variates from the seed alone (Model.Ziggurat.mixed): kinds translated to the model's numbering
+            mk = model_kinds(cases[i]["f"], draw_plan(cases[i], outs[i])[0])
+            if len(mk) <= 4000:
+                vs, tri = zigref.mixed(int(cases[i]["seed"]), mk)
+                outs[i]["zig"] = {"kinds": mk, "ref": vs, "orc": [list(t) for t in tri]}
     return outs
+
+
+def model_kinds(f, kinds):
+    """trace kinds (0 normal, 1 Exp(1), 2 uniform in T, 3 uniform f64) -> Model.Ziggurat.mixed kinds (2 = 53-bit, 3 = 24-bit numerator)"""
+    return [k if k < 2 else ((3 if f == "f32" else 2) if k == 2 else 2) for k in kinds]
+
+
+def zig_expected(f, kinds, mk, rp):
+    """the harness's replayed values (f64 bits of values in T) in the model's rendering"""
+    res = []
+    for k, m, b in zip(kinds, mk, rp):
+        x = C.f64_bits_to_float(b)
+        if m < 2:
+            res.append(C.float_to_f32_bits(x) if f == "f32" else b)
+        else:
+            res.append(int(x * (2 ** 24 if m == 3 else 2 ** 53)))
+    return res
 
 
 def draw_plan(case, out):
@@ -149,7 +173,14 @@ def coq_term(case, out):
     if rats:
         t += " ++ [%s] ++ %s %s" % (C.z(AMARK), "leaf_alphas32" if case["f"] == "f32" else "leaf_alphas64",
                                     C.zlist([N.tbits(case["f"], r) for r, a in rats]))
-    lv = leaf_samples(case, out)
+    lv0 = leaf_samples(case, out)
+    zg = out.get("zig")
+    ztail = ""
+    if zg:
+        ztail = " ++ [%s] ++ mixed_eval %s%%N %s %s" % (C.z(ZMARK), case["seed"], C.zlist(zg["kinds"]), C.zlist([o[2] for o in zg["orc"]]))
+    lv = lv0
+    if not lv:
+        return t + ztail
     if lv:
         tg = case["target"]
         d = tg["d"]
@@ -158,7 +189,7 @@ def coq_term(case, out):
         t += " ++ [%s] ++ " % C.z(LMARK) + " ++ ".join(
             "(nuts_leaf_eval %s %s [%s] [%s])" % (A, N.dy(e), "; ".join(q(b) for b in prev["position"]), "; ".join(q(b) for b in prev["momentum"]))
             for (e, prev, leaf) in lv)
-    return t
+    return t + ztail
 
 
 def leaf_ratios(case, out):
@@ -215,6 +246,25 @@ def compare(case, out, model):
         return None
     trs = [t for t in transitions(case, out) if usable(t) and not N.ambiguous(t, case["f"])]
     lm = None
+    if ZMARK in model:
+        k = model.index(ZMARK)
+        model, zm = model[:k], model[k + 1:]
+        zg = out["zig"]
+        if zm == [0]:
+            return "Model.Ziggurat.mixed ran out of fuel or oracle values for seed %s" % case["seed"]
+        n = len(zg["kinds"])
+        vs, left, log = zm[1:1 + n], zm[1 + n], zm[2 + n:]
+        kinds = draw_plan(case, out)[0]
+        exp = zig_expected(case["f"], kinds, zg["kinds"], out["replay"])
+        got = [C.float_to_f32_bits(C.f64_bits_to_float(v)) if (case["f"] == "f32" and m < 2) else v for v, m in zip(vs, zg["kinds"])]
+        for j, (a, b) in enumerate(zip(got, exp)):
+            if a != b:
+                return ("variate %d (model kind %d) of an identically seeded generator is %r in the implementation's crates; "
+                        "Model.Ziggurat.mixed computes %r from the seed %s" % (j, zg["kinds"][j], b, a, case["seed"]))
+        if left != 0 or log != [v for o in zg["orc"] for v in (o[0], o[1])]:
+            return "Model.Ziggurat.mixed consumed other exp/ln oracle values than the reference reading (seed %s)" % case["seed"]
+        if vs != zg["ref"]:
+            return "driver/zigref.py and Model.Ziggurat.mixed disagree for seed %s" % case["seed"]
     if LMARK in model:
         k = model.index(LMARK)
         model, lm = model[:k], model[k + 1:]
@@ -388,6 +438,7 @@ def extra(cases, outs, model):
             rp_vals += sum(1 for v in vals if v is not None)
             rp_bad += sum(1 for v, r in zip(vals, o["replay"]) if v is not None and v != r)
     return {"transitions": n_tr, "ambiguous": amb, "too_large_for_model": big, "classes": cl, "max_doublings": depth,
+            "variates_computed_in_coq_from_seed": sum(len(o["zig"]["kinds"]) for o in outs if isinstance(o, dict) and o.get("zig")),
             "draw_replay": {"cases": rp_cases, "variates_compared": rp_vals, "differing": rp_bad,
                             "rule": "every momentum coordinate, slice variable, direction / merge / acceptance uniform of the trace equals what an "
                                     "identically seeded SmallRng yields when it draws the kind sequence of Model.NUTSEval.nuts_run_kinds"}}
